@@ -22,6 +22,8 @@ def plan(ctx):
     else:
         P.append(sweep.family_shards(PROP, "U-F", j, max_deg=4))
         P.append(sweep.universe_shards(PROP, "U-S2", j, frac=4, seed=ctx.seed))
+    P.append(sweep.family_shards(PROP, "U-E", j))
+    P.append(sweep.family_shards(PROP, "U-P2", j, stride=1 if ctx.thorough else 3, offset=ctx.seed))
     P.append(sweep.family_shards(PROP, "U-X", j))
     return P
 
